@@ -113,7 +113,7 @@ def make_spec(rng, version=None, size="small"):
         cals.append(
             {
                 "idx": str(i + 1 if rng.chance(0.8) else 10 + i),
-                "timestamp": stop,
+                "timestamp": stop if rng.chance(0.75) else None,
                 "channels": {
                     nm: {"Start time (ns)": stop - 5, "Stop time (ns)": stop, "Kind": "Full calibration", "Response (pN/V)": 1.0 + i, "cal_id": i}
                     for nm in rng.sample(FORCE_HF, rng.randint(1, 4))
@@ -195,7 +195,8 @@ def write_file(path, spec):
                 g[ch["name"]].attrs[a] = val
         for c in spec["calibrations"]:
             g = f.require_group("Calibration").require_group(c["idx"])
-            g.attrs["Timestamp (ns)"] = c["timestamp"]
+            if c.get("timestamp") is not None:  # the attribute on the Calibration/<n> group itself is optional
+                g.attrs["Timestamp (ns)"] = c["timestamp"]
             for nm, attrs in c["channels"].items():
                 gg = g.require_group(nm)
                 for a, val in attrs.items():
